@@ -11,7 +11,7 @@
       - topK: *any* arrangement the sort / heap may produce among equal values ([legal_topk]).
     [Print Assumptions] shows the real-number axioms of the Coq standard library (used through Flocq in F32Facts.v). *)
 From Coq Require Import ZArith List Bool SpecFloat Reals.
-From V Require Import Sample.F32 Sample.Model Sample.F32Facts Sample.Proofs Sample.ProofsMono Sample.Corr Sample.CorrProofs.
+From V Require Import Sample.F32 Sample.Model Sample.F32Facts Sample.Proofs Sample.ProofsMono Sample.ProofsGrammar Sample.Corr Sample.CorrProofs.
 Import ListNotations.
 Open Scope Z_scope.
 
@@ -130,6 +130,38 @@ Theorem C18_no_panic : forall E, exp_oracle_ok E ->
 Proof. intros E (H1 & H2 & H3 & H4). exact (Sample_no_panic E H1 H2 H3 H4). Qed.
 Print Assumptions C18_no_panic.
 
+(** ** grammar-constrained sampling ([rej] = the ids the grammar rejects; any function).  Sample first tries the
+    unconstrained pick; if the grammar rejects it, the token slice is reset, masked and sampled again.  The model's
+    re-sample is *Sample on the masked logit vector* [mask_logits]: every id paired again with its own logit, rejected
+    ids -Inf - so every theorem above (admissibility, filter sets computed from the real logits of the accepted tokens,
+    bounds safety) applies to the grammar path with [logits := mask_logits rej 0 logits] ... *)
+Theorem C18_grammar_is_sample_on_masked_logits : forall E pr rej logits r1 r2,
+  match Sample E pr logits r1 with
+  | Tok t => if first_pick_rejected rej t
+             then Sample_grammar E pr rej logits r1 r2 = Sample E pr (mask_logits rej 0 logits) r2
+             else Sample_grammar E pr rej logits r1 r2 = Tok t
+  | e => Sample_grammar E pr rej logits r1 r2 = e
+  end.
+Proof. exact Sample_grammar_cases. Qed.
+Print Assumptions C18_grammar_is_sample_on_masked_logits.
+
+Theorem C18_mask_keeps_own_logit : forall rej l s i,
+  nth_error (mask_logits rej s l) i = option_map (fun v => if rej (s + Z.of_nat i) then ninf else v) (nth_error l i).
+Proof. exact mask_logits_nth. Qed.
+Print Assumptions C18_mask_keeps_own_logit.
+
+(** ... in particular: whenever some token the grammar accepts has a logit that is not -Inf, a token is returned, it is
+    accepted by the grammar, inside the vocabulary, and its own (real) logit is not -Inf *)
+Theorem C18_grammar_accepted_and_admissible : forall E, exp_oracle_ok E ->
+  forall temp k topp minp rej logits r1 r2,
+  params_ok temp topp minp -> draw_ok r1 -> draw_ok r2 -> Forall num logits ->
+  (exists i v, nth_error logits i = Some v /\ rej (Z.of_nat i) = false /\ v <> ninf) ->
+  exists a v, Sample_grammar E (new_sampler temp k topp minp) rej logits r1 r2 = Tok a /\
+    0 <= tid a < Z.of_nat (length logits) /\ nth_error logits (Z.to_nat (tid a)) = Some v /\ v <> ninf /\
+    rej (tid a) = false.
+Proof. intros E (H1 & H2 & H3 & _). exact (Sample_grammar_admissible E H1 H2 H3). Qed.
+Print Assumptions C18_grammar_accepted_and_admissible.
+
 (** ** the sets have their textbook meaning: with an exp that is monotone on the non-positive numbers, the
     probabilities computed from any legal topK result are descending (the precondition "sorted in descending order of
     probabilities" of topP and minP in the code) ... *)
@@ -204,6 +236,8 @@ Example ex_logits_ok : Forall num ex_logits /\ (exists x, In x ex_logits /\ x <>
 Proof. split; [repeat constructor|]. exists (f32_of_bits 1065353216). split; [now left|easy]. Qed.
 Example ex_runs : exists a, Sample E0 (new_sampler ex_temp 3 ex_topp ex_minp) ex_logits ex_r = Tok a /\ tid a = 0.
 Proof. vm_compute. eexists. split; reflexivity. Qed.
+Example ex_grammar : exists a, Sample_grammar E0 (new_sampler ex_temp 0 ex_topp ex_minp) (fun i => negb (i =? 3)) ex_logits fzero ex_r = Tok a /\ tid a = 3.
+Proof. vm_compute. eexists. split; reflexivity. Qed.   (* only id 3 (logit 0.5) is accepted; the first pick, id 1, is rejected *)
 Example ex_not_greedy : feq (p_temp (new_sampler ex_temp 3 ex_topp ex_minp)) fzero = false.
 Proof. reflexivity. Qed.
 Example ex_greedy : feq (p_temp (new_sampler (f32_of_bits 3212836864) 3 ex_topp ex_minp)) fzero = true.   (* temperature -1 *)
